@@ -527,3 +527,6 @@ Section Model.
   Definition components (st : store) : list E := components_g reactant_kinds st.
 
 End Model.
+
+Arguments RDefine {C D}.
+Arguments RModify {C D}.
